@@ -26,7 +26,7 @@ where
     Ok(())
 }
 
-fn validate_proof_shape<F, C, const D: usize>(
+pub(crate) fn validate_proof_shape<F, C, const D: usize>(
     proof: &Proof<F, C, D>,
     common_data: &CommonCircuitData<F, D>,
 ) -> anyhow::Result<()>
